@@ -315,6 +315,8 @@ func exec(line string) (res result) {
 		return execOffConst(line, rest[0])
 	case op == "hist" && len(rest) >= 1:
 		return execHist(line, ws)
+	case op == "newbrd" && len(rest) == 3:
+		return execNewBrd(line, ws)
 	case op == "favfile" && len(rest) == 5:
 		return execFavFile(line, rest)
 	case op == "qry" && len(rest) == 3:
@@ -1144,14 +1146,22 @@ func main() {
 	defer run.Finish()
 	initTypes()
 	var err error
-	env, err = bbsenv.New(bbsenv.Options{Fixture: "none", NoSHM: true})
+	if realSHM {
+		env, err = bbsenv.New(bbsenv.Options{})
+	} else {
+		env, err = bbsenv.New(bbsenv.Options{Fixture: "none", NoSHM: true})
+	}
 	if err != nil {
 		fmt.Fprintln(os.Stderr, "bbsenv:", err)
 		os.Exit(2)
 	}
-	// cache.SetUMoney mirrors the value into the segment: give it a private in-process one (no SysV object)
-	cache.Shm = &cache.SHM{Shm: new(cache.SHMRaw)}
-	defer func() { cache.Shm = nil; env.Close() }()
+	if realSHM {
+		defer env.Close()
+	} else {
+		// cache.SetUMoney mirrors the value into the segment: give it a private in-process one (no SysV object)
+		cache.Shm = &cache.SHM{Shm: new(cache.SHMRaw)}
+		defer func() { cache.Shm = nil; env.Close() }()
+	}
 	defer raceReport()
 	run.Extra["config"] = cfgName
 	run.Rule = "exhaustive over record types x fields (size/const/field ops; one image per field written by the Go writer and one read by the Go reader/overlay); partial updates and queries on random .PASSWDS images: 1..6 records, every slot incl. first/last, one and two records beyond EOF, torn tails, invalid uids (0, negative, MAX_USERS+1, int32 extremes), MAX_USERS itself (default config); .PASSWD2 absent/short/exact/long; malformed stream: unknown config/type/function, bad hex, bad arity, wrong argument length. nontrivial = reaches compiled code with a well-formed op"
@@ -1374,6 +1384,13 @@ func main() {
 	do(fmt.Sprintf("hist %s %s", c, hx.Hex(passwdImage(1, 0))), true)
 	do(fmt.Sprintf("hist %s %s F U:cmbbs.PasswdUpdateEmail:0:%s R:1:00 A:00", c, hx.Hex(passwdImage(1, 0)), strings.Repeat("11", 50)), true)
 
+	// ---- .BRD: a new board re-uses a vacated slot (first / middle / last / two slots / none) -----------
+	if realSHM {
+		for _, vac := range [][]int{{3}, {12}, {1}, {4, 8}, {}, {7}, {11, 12}} {
+			genNewBrd(vac)
+		}
+	}
+
 	// ---- .fav: sequential images, then concurrent saves of different users ---------------------------
 	for _, n := range []int{0, 1, 2, 5, 60} {
 		do(fmt.Sprintf("favfile %s %d %d %d %d 1", c, fav.FAV_VERSION, n, r.Intn(1<<31), r.Intn(128)), true)
@@ -1398,6 +1415,7 @@ func main() {
 		"upd " + c + " cmbbs.NoSuch 1 " + strings.Repeat("11", 14) + " 00", "upd " + c + " cmbbs.PasswdUpdateEmail 1 00 00 00",
 		"qry " + c + " cmbbs.NoSuch 1 00", "qry " + c + " cmbbs.PasswdQueryPasswd 1 0g", "qry " + c + " cmbbs.PasswdQueryPasswd",
 		"hist " + c, "hist " + c + " zz", "hist " + c + " 00 X:1", "hist " + c + " 00 U:cmbbs.PasswdUpdateEmail:1", "hist " + c + " 00 R:x:00", "hist " + c + " 00 A:0",
+		"newbrd " + c + " 1 00", "newbrd " + c + " x 00 00", "newbrd " + c + " 0 00 00",
 		"favfile " + c + " 3363 1 1 1", "favfile " + c + " 3363 x 1 1 1",
 		"qryrec " + c + " 1", "updrec " + c + " 1 00 00", "updrec " + c + " 0 " + strings.Repeat("00", 512) + " 00", "updrec " + c + " 1 0 0",
 		"lvl2 " + c + " 0 1 2 0 absent", "lvl2 " + c + " 0 x 1 0 absent", "lvl2 " + c + " 0 1 1 0 xyz",
